@@ -31,6 +31,8 @@ func c06Alphabet() []fsx.Op {
 		{K: "RENAME", H: "root", N: "a", H2: "root", N2: "d"},
 		{K: "RENAME", H: "root", N: "d", H2: "root", N2: "a"},
 		{K: "RENAME", H: "root/d", N: "x", H2: "root/d", N2: "y"},
+		{K: "RENAME", H: "root/d", N: "x", H2: "root", N2: "a"}, // between two directories, over an existing file
+		{K: "RENAME", H: "root", N: "a", H2: "root/d", N2: "x"},
 		{K: "RENAME", H: "root/d", N: "y", H2: "root/d/y", N2: "z"},
 		{K: "RENAME", H: "dead:root/d", N: "x", H2: "root", N2: "q"},
 		{K: "RENAME", H: "root", N: "a", H2: "dead:root/d", N2: "q"},
@@ -148,6 +150,8 @@ func lockJob(raw json.RawMessage) (interface{}, error) {
 func init() {
 	Checks["C06"] = C06
 	RegisterSeq("c06.seq", &SeqSpec{Prop: "C06", DiskSize: 3000, Alphabet: c06Alphabet(), After: c06After})
+	// directories living in recycled inodes (generation differs from the root's)
+	RegisterSeq("c06.seq.regen", &SeqSpec{Prop: "C06", DiskSize: 3000, Setup: []fsx.Op{{K: "MKDIR", H: "root", N: "t"}, {K: "RMDIR", H: "root", N: "t"}, {K: "RESTART"}}, Alphabet: c06Alphabet(), After: c06After})
 	RegisterSeq("c06.seq.inv", &SeqSpec{Prop: "C06", DiskSize: 3000, Setup: invertedSetup, Alphabet: c06Alphabet(), After: c06After})
 	par.Register("c06.locks", lockJob)
 }
@@ -157,11 +161,12 @@ func C06(r *report.Report, tier string) {
 	if tier == "thorough" {
 		depth, bound = 4, 3
 	}
-	r.Rule = fmt.Sprintf("(a) breadth-first search to depth %d over a %d-symbol alphabet of requests whose inodes coincide or are ordered arbitrarily (rename onto . / .., directory into itself, over its own parent, stale handles, cold caches after restart), from a fresh and from an inode-inverted image: a single client must never wait on itself, deadlock or exceed the scheduling-point horizon; (b) in four named states and in every state reached by a few shape-changing operations from a fresh and from an inode-inverted image (children with smaller and larger inode numbers than their parents), each with warm and with cold caches, the lock-acquisition trace of every probe operation is recorded, every pair of operations whose traces acquire two inode locks in opposite orders is a predicted deadlock, and each prediction is confirmed or refuted by exploring all schedules with <=%d deviations of the two operations run concurrently from that state - only a real deadlock schedule is a violation; (c) deadlock/horizon verdicts of all schedules with <=1 deviation of the C03 harnesses that involve renames, inverted inode numbers or background frees (horizon 400000 scheduling points)", depth, len(c06Alphabet()), bound)
+	r.Rule = fmt.Sprintf("(a) breadth-first search to depth %d over a %d-symbol alphabet of requests whose inodes coincide or are ordered arbitrarily (rename onto . / .., directory into itself, over its own parent, stale handles, cold caches after restart), from a fresh image, an inode-inverted image and an image whose next directory lands in a recycled inode (generation different from the root's): a single client must never wait on itself, deadlock or exceed the scheduling-point horizon; (b) in four named states and in every state reached by a few shape-changing operations from a fresh and from an inode-inverted image (children with smaller and larger inode numbers than their parents), each with warm and with cold caches, the lock-acquisition trace of every probe operation is recorded, every pair of operations whose traces acquire two inode locks in opposite orders is a predicted deadlock, and each prediction is confirmed or refuted by exploring all schedules with <=%d deviations of the two operations run concurrently from that state - only a real deadlock schedule is a violation; (c) deadlock/horizon verdicts of all schedules with <=1 deviation of the C03 harnesses that involve renames, inverted inode numbers or background frees (horizon 400000 scheduling points)", depth, len(c06Alphabet()), bound)
 	r.Only = map[string]bool{"C06": true}
 	s1 := RunSeq(r, "c06.seq", depth)
 	s2 := RunSeq(r, "c06.seq.inv", depth-1)
-	r.Extra["searches"] = []*SeqSummary{s1, s2}
+	s3 := RunSeq(r, "c06.seq.regen", depth+1)
+	r.Extra["searches"] = []*SeqSummary{s1, s2, s3}
 	// (b)
 	states := []lockArg{
 		{Setup: []fsx.Op{{K: "MKDIR", H: "root", N: "d"}, {K: "MKDIR", H: "root/d", N: "y"}, {K: "CREATE", H: "root/d", N: "x"}, {K: "CREATE", H: "root", N: "a"}}},
